@@ -9,7 +9,7 @@ TB = ("Coq 8.16.1 kernel + vm_compute; no axioms (Print Assumptions: closed); ex
 
 CLAIMED = {
     'C01': dict(cat='proof', technique='Coq proofs on the 6502 flag semantics and on a Gallina model of the generator\'s comparison lowering (branch sequences reach their label iff the C relation holds; negation / operand-swap tables), that model compared with the real generator on every cell each run + co-execution of generated programs on the extracted 6502 semantics against the extracted C semantics, failures minimised and attributed by feature',
-                text='Proved on the 6502 semantics (Sem.run) for ALL machine states: 39 lowering templates (assignments, 8/16-bit arithmetic, ++/--, shifts, zero/sign extension) , 8 loop forms (for / while / do-while over memory counters and X / Y, with continue and break: termination and closed-form final values by an invariant rule for backward branches) the compositional control-flow rules (if / if-else / while / do-while / for with break / switch with fall-through and default, for arbitrary bodies given by a specification; 34 pinned listings), the calling convention (call rule on Sem.run with a program table for any call stack, arguments into static parameter cells, nested calls, results in conditions and loops; 17 pinned listings), truth values and ?: stored into 16-bit objects (both bytes; the pre-repair sequences refuted by execution; 12 pinned listings), pointer operations (dereference with Y parked and restored, indexed forms, address-of, 16-bit pointer arithmetic, read-modify-write through a pointer, under an explicit aliasing hypothesis; the open defect of `if (*p)` proved as a theorem; 17 pinned listings) and 20 16-bit comparison forms compute the C value / take the C branch (signed 16-bit forms: exactly when the subtraction does not overflow; refuted otherwise), each template compared with the sequence the real generator emits on every run; the flags CMP leaves; the unsigned branch sequences are exact; the signed ones are exact when the 8-bit subtraction does not overflow and refuted otherwise (known finding); the CMP-less comparison with 0 is exact for signed operands and for exactly the cells == != <= on unsigned ones (the other three cells are refuted: known finding); the negation and operand-swap tables preserve the relation for all integers. The tables are compared with what the real generator emits on all 96 cells (operator x signedness x negation x swap x with/without CMP) each run. The generator as a whole (4 400 lines) is NOT modelled: seeded programs of the accepted subset are compiled at -O0/-O1 and co-executed against Src/CSem.v from boundary-biased states, a fixed enumeration of 1297 directed programs included, each also with its variables renamed to keyword-prefixed names (return_b, elsec, sizeofj, ...); a failing program is minimised and attributed to a known finding only by the features of its minimised form. Partial.',
+                text='Proved on the 6502 semantics (Sem.run) for ALL machine states: 39 lowering templates (assignments, 8/16-bit arithmetic, ++/--, shifts, zero/sign extension) , 8 loop forms (for / while / do-while over memory counters and X / Y, with continue and break: termination and closed-form final values by an invariant rule for backward branches) the compositional control-flow rules (if / if-else / while / do-while / for with break / switch with fall-through and default, for arbitrary bodies given by a specification; 34 pinned listings), the calling convention (call rule on Sem.run with a program table for any call stack, arguments into static parameter cells, nested calls, results in conditions and loops; 17 pinned listings), truth values and ?: stored into 16-bit objects (both bytes; the pre-repair sequences refuted by execution; 12 pinned listings), pointer operations (dereference with Y parked and restored, indexed forms, address-of, 16-bit pointer arithmetic, read-modify-write through a pointer, under an explicit aliasing hypothesis; the open defect of `if (*p)` proved as a theorem; 17 pinned listings), updates of elements of 16-bit arrays (both bytes; 11 pinned listings) and 20 16-bit comparison forms compute the C value / take the C branch (signed 16-bit forms: exactly when the subtraction does not overflow; refuted otherwise), each template compared with the sequence the real generator emits on every run; the flags CMP leaves; the unsigned branch sequences are exact; the signed ones are exact when the 8-bit subtraction does not overflow and refuted otherwise (known finding); the CMP-less comparison with 0 is exact for signed operands and for exactly the cells == != <= on unsigned ones (the other three cells are refuted: known finding); the negation and operand-swap tables preserve the relation for all integers. The tables are compared with what the real generator emits on all 96 cells (operator x signedness x negation x swap x with/without CMP) each run. The generator as a whole (4 400 lines) is NOT modelled: seeded programs of the accepted subset are compiled at -O0/-O1 and co-executed against Src/CSem.v from boundary-biased states, a fixed enumeration of 1297 directed programs included, each also with its variables renamed to keyword-prefixed names (return_b, elsec, sizeofj, ...); a failing program is minimised and attributed to a known finding only by the features of its minimised form. Partial.',
                 ref='DESIGN.md sections 6 C01 and 12'),
     'C15': dict(cat='proof', technique='Coq proofs that the rewrites are equivalences in the C semantics (commuted + & | ^ *, swapped comparisons, x + 1 as increment) and that the generator\'s swap / negation tables preserve the relation + exhaustive table correspondence + metamorphic co-execution of both spellings on the extracted 6502 semantics',
                 text='The source-level equivalences are proved for all values in Src/CSem.v; the tables through which the generator canonicalises comparisons are proved relation-preserving and compared with the real generator on every cell; that the compiler emits equivalent code for two spellings is co-executed, not proved: every applicable rewrite site of generated programs is rewritten (commute, swap, compound assignment folded/unfolded, ++ as += 1, if/else with negated condition, for as while) and both spellings must end in the same state from the same initial states. A spelling the compiler rejects is a rejection, not a violation. Partial.',
